@@ -10,6 +10,16 @@ Three monitors:
   fail  an exception injected at each step of a session (body, value encoder, backend write of the j-th record during the
         exit flush -- natural duplicate and injected --, end_write / end_read): afterwards the same handle, another handle
         and a FRESH PROCESS must be able to run a session (lock released, file closed), earlier records intact.
+        What is raised is an Exception subclass and, for the steps user code can be interrupted in, something that is NOT an
+        Exception (KeyboardInterrupt, SystemExit, GeneratorExit, a BaseException subclass); the failing reading session
+        also runs on a handle opened read-only.
+Further schedules (each with its own offline rule): lateopen, locktimeout, longlived, and
+  recreate  another process constructs the library anew (overwrite=True) while a reading / writing session of this process
+        is inside: the session keeps a complete view, afterwards the library is what the creator's session stored.
+Handles opened read-only (readonly=True, the default of MoleculeLibrary(path)) take part as long-lived handles in mp (every
+fourth worker), longlived, locktimeout, recreate and fail; the mp workers reach the library also through a symbolic link to
+the file itself and a link to that link, and are delayed in front of every step between lock acquisition and release
+(update_keys, flush, end_write / end_read).
 """
 from __future__ import annotations
 
@@ -20,10 +30,14 @@ import sys
 
 ID = "C04"
 LEVEL = "exploration"
-RULE = ("mp: P in {8,12,16} processes x S sessions (70% writing 1-3 records, 30% reading), seeded sleeps before, inside and "
-        "between lock acquisition and index refresh, paths spelled absolute / relative / via '..' / via a symlinked "
-        "directory; seq: every sequence of k<=4 (quick) / 5 (thorough) sessions over {reader, writer with 0/1/2 puts} x 3 "
-        "handles; fail: every (failing step x bufsize x position) case. non-trivial (mp) = a run in which >=2 processes "
+RULE = ("mp: P in {8,12,16} processes x S sessions (70% writing 1-3 records, 30% reading; every fourth process keeps a "
+        "read-only handle and only reads), seeded sleeps before, inside and between lock acquisition and index refresh, "
+        "before the exit flush and before the file is closed, paths spelled absolute / relative / via '..' / via a symlinked "
+        "directory / via a symbolic link to the file / via a link to that link; seq: every sequence of k<=4 (quick) / 5 (thorough) sessions over {reader, writer with 0/1/2 puts} x 3 "
+        "handles; fail: every (failing step x bufsize x position) case, the steps user code runs in also with KeyboardInterrupt / "
+        "SystemExit / GeneratorExit / a BaseException subclass, the reading steps also on a read-only handle; recreate: "
+        "{reading on a read-only handle, reading, writing} session inside while another process constructs the library "
+        "with overwrite=True. non-trivial (mp) = a run in which >=2 processes "
         "had adjacent sessions and a reader ran between two writers; (seq/fail) = every case; distinct by schedule "
         "signature / sequence / case")
 ASSUMPTIONS = [
@@ -32,8 +46,15 @@ ASSUMPTIONS = [
     "CLOCK_MONOTONIC is system-wide on Linux, so intervals from different processes are comparable",
     "failures of begin_read/begin_write (file deleted under the handle) are not among the listed failure sources",
 ]
-REQUIRED = {"mp.sessions": 200, "mp.writer-sessions": 100, "mp.reader-between-writers": 5, "mp.cross-process-adjacent": 50,
-            "seq.sequences": 1000, "mp.schedules-with-racing-creation": 2, "lateopen.schedules": 4, "locktimeout.schedules": 2, "longlived.histories": 15, "longlived.other-process-sessions": 20, "longlived.own-sessions-with-a-rejected-record": 3, "longlived.library-recreated-under-live-handles": 2, "fail.cases": 30, "fail.fresh-process-acquired": 30}
+REQUIRED = {"mp.sessions": 200, "mp.writer-sessions": 90, "mp.reader-between-writers": 5, "mp.cross-process-adjacent": 40,
+            "seq.sequences": 1000, "mp.schedules-with-racing-creation": 2, "lateopen.schedules": 4, "locktimeout.schedules": 2, "longlived.histories": 15, "longlived.other-process-sessions": 20, "longlived.own-sessions-with-a-rejected-record": 3, "longlived.library-recreated-under-live-handles": 2, "fail.cases": 40, "fail.fresh-process-acquired": 40,
+            # workload classes added after the gap review
+            "mp.readonly-handle-sessions": 50, "mp.sessions-through-a-link-to-the-file": 45,
+            "mp.writer-sessions-with-delayed-close": 40, "mp.reader-sessions-with-delayed-close": 40,
+            "fail.cases-ended-by-something-that-is-not-an-Exception": 23, "fail.cases-on-a-read-only-handle": 4,
+            "locktimeout.read-only-handle-parties": 1, "longlived.sessions-of-a-long-lived-read-only-handle": 12,
+            "recreate.schedules": 4, "recreate.reading-session-inside": 1,
+            "recreate.reading-session-inside-on-a-read-only-handle": 1, "recreate.writing-session-inside": 1}
 CHUNK_TIMEOUT = 600
 TECHNIQUE = ("runtime monitoring: recorded session-interval histories from real processes + offline checker (mutual exclusion, "
              "conservation, visibility); fault injection at each session step with a fresh-process lock probe")
@@ -57,8 +78,10 @@ def plan(tier, seed):
                           "payload": "mlib" if i % 4 == 3 else "bytes", "timeout": 900, "race_create": i % 2 == 1})
         for h in range(12):
             specs.append({"kind": "seq", "first": h, "k": 5})
-    for i in range(8):
-        specs.append({"kind": "fail", "chunk": i, "of": 8})
+    for i in range(16):
+        specs.append({"kind": "fail", "chunk": i, "of": 16})
+    for i in range(3 if tier == "quick" else 12):
+        specs.append({"kind": "recreate", "chunk": i, "n": 3 if tier == "quick" else 6})
     for i in range(4 if tier == "quick" else 16):
         specs.append({"kind": "lateopen", "chunk": i, "timeout": 240})
     for i in range(2 if tier == "quick" else 8):
@@ -70,7 +93,7 @@ def plan(tier, seed):
 
 def run_chunk(spec, ctx):
     {"mp": run_mp, "seq": run_seq, "fail": run_fail, "lateopen": run_lateopen,
-     "locktimeout": run_locktimeout, "longlived": run_longlived}[spec["kind"]](spec, ctx)
+     "locktimeout": run_locktimeout, "longlived": run_longlived, "recreate": run_recreate}[spec["kind"]](spec, ctx)
 
 
 # ------------------------------------------------------------------------------------------------
@@ -99,20 +122,36 @@ def run_mp(spec, ctx):
     else:
         from molli.storage import Collection, UkvCollectionBackend
         Collection(path, UkvCollectionBackend, readonly=False, overwrite=True)
+    # symbolic links to the library FILE itself (relative target; may dangle until the library is created) and a link to
+    # that link reached through the symlinked directory
+    current = "current" + path.suffix
+    os.symlink(path.name, root / "data" / current)
+    os.symlink(os.path.join("link", current), root / ("latest" + path.suffix))
     spellings = [
-        (str(root), str(path)),
-        (str(root / "data"), path.name),
-        (str(root / "data" / "sub"), os.path.join("..", path.name)),
-        (str(root), os.path.join("link", path.name)),
-        (str(root / "data"), os.path.join("sub", "..", path.name)),
+        (str(root), str(path), False),
+        (str(root / "data"), path.name, False),
+        (str(root / "data" / "sub"), os.path.join("..", path.name), False),
+        (str(root), os.path.join("link", path.name), False),
+        (str(root / "data"), os.path.join("sub", "..", path.name), False),
+        (str(root / "data"), current, True),
+        (str(root), "latest" + path.suffix, True),
     ]
     procs = []
     env = dict(os.environ)
+    via_file_link, read_only = set(), set()
     for w in range(spec["procs"]):
-        cwd, p = spellings[w % len(spellings)]
+        cwd, p, file_link = spellings[w % len(spellings)]
+        # every fourth worker opens the library read-only (the default of MoleculeLibrary(path)) and keeps that handle
+        ro = w % 4 == 3
+        if file_link:
+            via_file_link.add(w)
+        if ro:
+            read_only.add(w)
         wspec = {"wid": w, "seed": rng.randrange(2**31), "cwd": cwd, "path": p, "log": str(root / "logs" / f"w{w}.jsonl"),
                  "sessions": spec["sessions"], "p_write": 0.7, "bufsize": rng.choice([-1, 0, 4096, 10**6]),
-                 "max_sleep": 0.004, "payload": spec["payload"], "lock_delay": 0.03 if spec.get("race_create") else 0}
+                 "max_sleep": 0.004, "payload": spec["payload"], "lock_delay": 0.03 if spec.get("race_create") else 0,
+                 "readonly": ro, "wait_exists": ro or file_link, "wait_limit": spec["timeout"] - 60,
+                 "end_delay": 0.02, "p_end_delay": 0.5}
         procs.append(subprocess.Popen([sys.executable, "-m", "vmon.models.c04_worker", json.dumps(wspec)], env=env,
                                       stdout=subprocess.DEVNULL, stderr=subprocess.PIPE, text=True))
     bad_exit = []
@@ -133,7 +172,15 @@ def run_mp(spec, ctx):
         f = root / "logs" / f"w{w}.jsonl"
         if f.exists():
             sessions += [json.loads(l) for l in f.read_text().splitlines() if l.strip()]
+    harness = [s["harness"] for s in sessions if "harness" in s]
+    if harness:
+        ctx.inconclusive.append(f"mp chunk {spec['chunk']}: {harness[0]}")
+        return
     ctx.count("mp.sessions", len(sessions))
+    ctx.count("mp.readonly-handle-sessions", sum(1 for s in sessions if s["w"] in read_only))
+    ctx.count("mp.sessions-through-a-link-to-the-file", sum(1 for s in sessions if s["w"] in via_file_link))
+    ctx.count("mp.writer-sessions-with-delayed-close", sum(1 for s in sessions if s["kind"] == "w" and s.get("end_delayed")))
+    ctx.count("mp.reader-sessions-with-delayed-close", sum(1 for s in sessions if s["kind"] == "r" and s.get("end_delayed")))
     ctx.count("mp.processes", spec["procs"])
     done = [s for s in sessions if s.get("completed")]
     for s in sessions:
@@ -362,11 +409,15 @@ def run_longlived(spec, ctx):
             nh = rng.choice([1, 1, 2])
             bufs = [rng.choice([0, 4096, 10**6, 10**6]) for _ in range(nh)]
             hs = [Collection(path, UkvCollectionBackend, readonly=False, bufsize=b) for b in bufs]
+            # ... and, in most histories, a handle opened read-only (the default) that lives through all of it
+            has_ro = rng.random() < 0.7
+            if has_ro:
+                hs.append(Collection(path, UkvCollectionBackend))
             hard: dict[str, bytes] = {}               # certainly stored
             limbo = [dict() for _ in hs]              # accepted in a session of that handle that ended with an exception
             maybe: dict[str, bytes] = {}              # limbo records at the time the library was created anew: they may have
             #                                           been stored before (and are gone with the old file) or are still queued
-            hist = [("handles", bufs)]
+            hist = [("handles", bufs, "and-a-read-only-one" if has_ro else "")]
             counter = [0]
             ok = [True]
             flags = set()
@@ -439,9 +490,11 @@ def run_longlived(spec, ctx):
                     flags.add("recreated")
                     ctx.count("longlived.library-recreated-under-live-handles")
                 else:
-                    h = rng.randrange(nh)
+                    h = rng.randrange(len(hs))
                     col = hs[h]
-                    writing = r < 0.80
+                    writing = r < 0.80 and h < nh
+                    if h >= nh:
+                        ctx.count("longlived.sessions-of-a-long-lived-read-only-handle")
                     with_dup = writing and hard and rng.random() < 0.3
                     absent_style = writing and not with_dup and rng.random() < 0.3
                     hist.append(("own", h, "w" if writing else "r", "dup" if with_dup else "absent" if absent_style else ""))
@@ -511,6 +564,10 @@ def run_longlived(spec, ctx):
             # drain: every handle completes one more (empty) writing session, then a fresh process reads the file
             for h, col in enumerate(hs):
                 try:
+                    if h >= nh:
+                        with col.reading(timeout=30):
+                            look(h, col, "last-session-of-read-only-handle")
+                        continue
                     with col.writing(timeout=30):
                         pass
                     hard.update(limbo[h])
@@ -561,7 +618,11 @@ print(json.dumps({"ok": True}))
 
 TIMEOUT_B = LATE_COMMON + r"""
 who = %(who)r
-lib = Collection(path, UkvCollectionBackend, readonly=False, bufsize=0)      # long-lived handle, made before the holder enters
+if %(ro)r:
+    lib = Collection(path, UkvCollectionBackend)                               # read-only, the default way to open a library
+else:
+    lib = Collection(path, UkvCollectionBackend, readonly=False, bufsize=0)
+# (a long-lived handle, made before the holder enters)
 touch(who + "_ready")
 wait_for("go_" + who, timeout=90)
 entered, err, overlap = False, None, None
@@ -604,8 +665,10 @@ def run_locktimeout(spec, ctx):
 
     # the waiting parties construct their handles first (a constructor waits for the lock without any timeout)
     waiting = []
-    for who, write in (("b", True), ("c", rng.random() < 0.7)):
-        q = subprocess.Popen([sys.executable, "-c", TIMEOUT_B % {**par, "who": who, "t": 0.4, "write": write}],
+    c_writes = rng.random() < 0.7
+    # ("e": a reader whose handle was opened read-only)
+    for who, write, ro in (("b", True, False), ("c", c_writes, False), ("e", False, True)):
+        q = subprocess.Popen([sys.executable, "-c", TIMEOUT_B % {**par, "who": who, "t": 0.4, "write": write, "ro": ro}],
                              stdout=subprocess.PIPE, stderr=subprocess.PIPE, text=True)
         waiting.append((who, write, q))
     mine = Collection(path, UkvCollectionBackend, readonly=False, bufsize=0)
@@ -652,6 +715,7 @@ def run_locktimeout(spec, ctx):
     if a.returncode != 0:
         ctx.violation("locktimeout:holder-session-failed", case=case, stderr=(err or "")[-300:])
     ctx.count("locktimeout.schedules")
+    ctx.count("locktimeout.read-only-handle-parties", sum(1 for w, _, r in late if w == "e"))
     entered = [(w, r) for w, _, r in late if r["entered"]]
     ctx.case(case, dkey=tuple((w, wr, r["entered"]) for w, wr, r in late), nontrivial=True,
              sample={"waiting_parties": [[w, "writing" if wr else "reading", r["err"] or "entered"] for w, wr, r in late]})
@@ -664,7 +728,7 @@ def run_locktimeout(spec, ctx):
             ctx.violation("locktimeout:waiting-session-raises-something-else", case=case, party=w, err=r["err"])
     # afterwards the lock still works and nothing was lost
     (root / "go_z").touch()
-    p = subprocess.run([sys.executable, "-c", TIMEOUT_B % {**par, "who": "z", "t": 20, "write": True}], capture_output=True, text=True, timeout=120)
+    p = subprocess.run([sys.executable, "-c", TIMEOUT_B % {**par, "who": "z", "t": 20, "write": True, "ro": False}], capture_output=True, text=True, timeout=120)
     want = {"a0": b"value-of-a0", "a1": b"value-of-a1", "z0": b"value-of-z0"}
     for w, wr, r in late:
         if r["entered"] and wr:
@@ -676,6 +740,171 @@ def run_locktimeout(spec, ctx):
             ctx.violation("locktimeout:records-lost-or-altered", case=case, missing=sorted(set(want) - set(got)), extra=sorted(set(got) - set(want)))
     except ScanError as e:
         ctx.violation("locktimeout:final-file-not-a-clean-record-sequence", case=case, err=str(e))
+
+
+# ------------------------------------------------------------------------------------------------
+# recreate: another process creates the library anew (overwrite=True) while a session of this process is inside
+
+RECREATE_B = LATE_COMMON + r"""
+touch("b_ready")
+wait_for("go", timeout=120)
+touch("b_started")
+lib = Collection(path, UkvCollectionBackend, readonly=False, overwrite=True, comment=%(comment)r, bufsize=%(bufsize)r)
+touch("b_constructed")
+with lib.writing(timeout=60):
+    for k, v in %(records)r:
+        lib[k] = bytes.fromhex(v)
+with lib.reading(timeout=60):
+    seen = {k: lib[k].hex() for k in lib.keys()}
+print(json.dumps({"seen": seen}))
+"""
+
+RECREATE_VARIANTS = [("reading", "ro"), ("reading", "rw"), ("writing", "rw")]
+
+
+def run_recreate(spec, ctx):
+    """The session that is inside keeps a complete view (every key it listed reads back with the value that was stored, its
+    own accepted records stay listed) whatever the other process does meanwhile; afterwards the library is exactly what
+    the creator's completed session stored, for the creator, for the handle that lived through it and on disk."""
+    import time
+    from molli.storage import Collection, UkvCollectionBackend
+    from vmon.models.kvmap import scan, ScanError
+
+    for j in range(spec["n"]):
+        kind, how = RECREATE_VARIANTS[(spec["chunk"] + j) % len(RECREATE_VARIANTS)]
+        case = ("recreate", spec["chunk"], j, kind, how)
+        if not ctx.want(case):
+            continue
+        rng = ctx.rng(*case)
+        root = ctx.tmp / f"rc{j}"
+        root.mkdir()
+        path = root / "lib.ukv"
+        maker = Collection(path, UkvCollectionBackend, readonly=False, overwrite=True, comment="c" * rng.choice([0, 5, 50]))
+        want = {f"k{i}": rng.randbytes(rng.choice([1, 40, 3000, 20000])) for i in range(rng.randrange(3, 7))}
+        with maker.writing():
+            for k, val in want.items():
+                maker[k] = val
+        new = [(f"n{i}", rng.randbytes(rng.choice([0, 10, 500])).hex()) for i in range(rng.randrange(1, 4))]
+        bufsize = rng.choice([0, 4096, 10**6])
+        par = {"syspath": [p for p in sys.path if p], "root": str(root), "path": str(path), "records": new,
+               "comment": "r" * rng.choice([0, 5, 64]), "bufsize": rng.choice([0, 4096])}
+        b = subprocess.Popen([sys.executable, "-c", RECREATE_B % par], stdout=subprocess.PIPE, stderr=subprocess.PIPE, text=True)
+
+        def wait_file(name, limit):
+            t0 = time.monotonic()
+            while not (root / name).exists():
+                if b.poll() is not None or time.monotonic() - t0 > limit:
+                    return False
+                time.sleep(0.01)
+            return True
+
+        mine = Collection(path, UkvCollectionBackend) if how == "ro" else \
+            Collection(path, UkvCollectionBackend, readonly=False, bufsize=bufsize)
+        if how == "ro" or rng.random() < 0.5:
+            with mine.reading():        # the handle has run a session before
+                pass
+        if not wait_file("b_ready", 120):
+            b.kill()
+            ctx.inconclusive.append(f"recreate {spec['chunk']}/{j}: the other process did not get ready")
+            continue
+        bad = []
+        own = {}
+        returned_early = False
+        try:
+            with (mine.writing(timeout=30) if kind == "writing" else mine.reading(timeout=30)):
+                listed = sorted(mine.keys())
+                if listed != sorted(want):
+                    bad.append(("session-begin:listed-keys-differ", sorted(set(want) ^ set(listed))[:4]))
+                if kind == "writing":
+                    own["m0"] = rng.randbytes(rng.choice([5, 300]))
+                    mine["m0"] = own["m0"]
+                size0 = path.stat().st_size
+                (root / "go").touch()
+                if not wait_file("b_started", 120):
+                    ctx.inconclusive.append(f"recreate {spec['chunk']}/{j}: the other process did not start")
+                    raise RuntimeError("harness")
+                # give the other process the time to do whatever its constructor does before it has to wait for this
+                # session (only shapes the schedule: the verdict comes from what this session reads afterwards)
+                t0 = time.monotonic()
+                while time.monotonic() - t0 < spec.get("settle", 1.0):
+                    if (root / "b_constructed").exists() or path.stat().st_size < size0:
+                        break
+                    time.sleep(0.01)
+                returned_early = (root / "b_constructed").exists()
+                if kind == "writing":
+                    own["m1"] = rng.randbytes(rng.choice([5, 300, 9000]))
+                    mine["m1"] = own["m1"]
+                now = set(mine.keys())
+                for k in listed:
+                    if k not in now:
+                        bad.append(("listed-key-vanished-inside-the-session", k))
+                        continue
+                    try:
+                        got = mine[k]
+                    except Exception as e:  # noqa
+                        bad.append((f"listed-record-unreadable-inside-the-session:{type(e).__name__}", k))
+                        continue
+                    if got != want[k]:
+                        bad.append(("incomplete-or-altered-record-inside-the-session", k))
+                for k, val in own.items():
+                    try:
+                        if k not in now or mine[k] != val:
+                            bad.append(("own-accepted-record-not-readable-inside-the-session", k))
+                    except Exception as e:  # noqa
+                        bad.append((f"own-accepted-record-unreadable-inside-the-session:{type(e).__name__}", k))
+        except RuntimeError as e:
+            if str(e) == "harness":
+                b.kill()
+                continue
+            bad.append((f"session-raises:{type(e).__name__}", repr(e)[:200]))
+        except Exception as e:  # noqa
+            bad.append((f"session-raises:{type(e).__name__}", repr(e)[:200]))
+        try:
+            out, err = b.communicate(timeout=180)
+        except subprocess.TimeoutExpired:
+            b.kill()
+            ctx.inconclusive.append(f"recreate {spec['chunk']}/{j}: the other process did not finish (watchdog)")
+            continue
+        ctx.count("recreate.schedules")
+        ctx.count(f"recreate.{kind}-session-inside" + ("-on-a-read-only-handle" if how == "ro" else ""))
+        if returned_early:
+            ctx.count("recreate.constructor-returned-while-the-session-was-inside")
+        ctx.case(case, dkey=(kind, how, len(want), len(new), bufsize), nontrivial=True,
+                 sample={"session_inside": kind, "handle": how, "records_before": len(want), "records_of_the_creator": len(new),
+                         "constructor_returned_while_inside": returned_early})
+        seen_keys = set()
+        for key, wit in bad:
+            if key not in seen_keys:
+                seen_keys.add(key)
+                ctx.violation(f"recreate:{kind}-session{'-on-read-only-handle' if how == 'ro' else ''}:{key}", case=case,
+                              witness=wit, constructor_returned_while_inside=returned_early)
+        try:
+            seen = {k: bytes.fromhex(x) for k, x in json.loads(out.strip().splitlines()[-1])["seen"].items()}
+        except Exception:  # noqa
+            ctx.violation("recreate:creating-process-failed", case=case, session_inside=kind, stderr=(err or "")[-300:])
+            continue
+        # the creator got the lock after the session had ended: the library is what its completed session stored
+        hard = {k: bytes.fromhex(x) for k, x in new}
+        if seen != hard:
+            ctx.violation("recreate:creator-does-not-read-back-what-its-completed-session-stored", case=case, session_inside=kind,
+                          missing=sorted(set(hard) - set(seen))[:4], extra=sorted(set(seen) - set(hard))[:4],
+                          altered=sorted(k for k in hard if k in seen and seen[k] != hard[k])[:4])
+        try:
+            with mine.reading(timeout=30):
+                ks = set(mine.keys())
+                if ks != set(hard):
+                    ctx.violation("recreate:surviving-handle:listed-keys-differ-afterwards", case=case, session_inside=kind,
+                                  missing=sorted(set(hard) - ks)[:4], extra=sorted(ks - set(hard))[:4])
+                elif any(mine[k] != hard[k] for k in hard):
+                    ctx.violation("recreate:surviving-handle:record-altered-afterwards", case=case, session_inside=kind)
+        except Exception as e:  # noqa
+            ctx.violation(f"recreate:surviving-handle:next-session-raises:{type(e).__name__}", case=case, err=repr(e)[:200])
+        try:
+            _, _, _, recs, _ = scan(path.read_bytes())
+            if {k.decode(): val for k, val, _ in recs} != hard or len(recs) != len(hard):
+                ctx.violation("recreate:final-file-differs", case=case, session_inside=kind, n_file=len(recs), n_expected=len(hard))
+        except ScanError as e:
+            ctx.violation("recreate:final-file-not-a-clean-record-sequence", case=case, session_inside=kind, err=str(e))
 
 
 # ------------------------------------------------------------------------------------------------
@@ -754,6 +983,14 @@ class Boom(Exception):
     pass
 
 
+class Stop(BaseException):
+    """not an Exception: what `except Exception` does not see (as KeyboardInterrupt, SystemExit, GeneratorExit)"""
+
+
+EXC_KINDS = {"Boom": Boom, "KeyboardInterrupt": KeyboardInterrupt, "SystemExit": SystemExit,
+             "GeneratorExit": GeneratorExit, "BaseException-subclass": Stop}
+
+
 PROBE = r"""
 import sys, json
 sys.path[:0] = %(syspath)r
@@ -782,11 +1019,24 @@ print(json.dumps({"lock": "ok", "records": out}))
 
 
 def fail_cases():
+    """(failing step, bufsize, what is raised, how the failing handle was opened)"""
     cases = []
     for bufsize in (-1, 0, 64, 10**6):
         for step in ("body", "body-after-put", "encoder", "backend-write-1", "backend-write-2", "end_write",
                      "duplicate-key", "oversize-key", "reader-body", "end_read"):
-            cases.append((step, bufsize))
+            cases.append((step, bufsize, "Boom", "rw"))
+    # the session is ended by something that is not an Exception (Ctrl-C in a notebook, sys.exit() caught by a framework,
+    # a generator closed around the with statement): raised by the body, by the encoder, by the backend write
+    for bufsize in (0, 10**6):
+        for step in ("body", "body-after-put", "encoder", "backend-write-1", "end_write", "reader-body", "end_read"):
+            for exc in ("KeyboardInterrupt", "SystemExit", "GeneratorExit", "BaseException-subclass"):
+                if step in ("end_write", "end_read", "encoder", "backend-write-1") and exc in ("SystemExit", "GeneratorExit"):
+                    continue
+                cases.append((step, bufsize, exc, "rw"))
+    # the failing reading session runs on a handle opened read-only (the default way to open a library)
+    for step in ("reader-body", "end_read"):
+        for exc in ("Boom", "KeyboardInterrupt", "SystemExit", "BaseException-subclass"):
+            cases.append((step, 0, exc, "ro"))
     return cases
 
 
@@ -795,27 +1045,36 @@ def run_fail(spec, ctx):
     from vmon.models.kvmap import scan, ScanError
 
     allc = fail_cases()
-    for idx, (step, bufsize) in enumerate(allc):
+    for idx, (step, bufsize, exc, how) in enumerate(allc):
         if idx % spec["of"] != spec["chunk"]:
             continue
-        case = ("fail", step, bufsize)
+        case = ("fail", step, bufsize, exc, how)
         if not ctx.want(case):
             continue
         path = ctx.tmp / f"fail-{idx}.ukv"
         encoder_armed = [False]
+        Exc = EXC_KINDS[exc]
+        tag = step if exc == "Boom" and how == "rw" else f"{step}[{exc if exc == 'Boom' else 'not-an-Exception'},{how}]"
 
         def encoder(v):
             if encoder_armed[0]:
-                raise Boom("encoder")
+                raise Exc("encoder")
             return v
 
-        col = Collection(path, UkvCollectionBackend, value_encoder=encoder, readonly=False, overwrite=True, bufsize=bufsize)
+        maker = Collection(path, UkvCollectionBackend, value_encoder=encoder, readonly=False, overwrite=True, bufsize=bufsize)
         other = Collection(path, UkvCollectionBackend, readonly=False, bufsize=0)
         committed = {}
-        with col.writing():
+        with maker.writing():
             for i in range(3):
-                col[f"old{i}"] = f"old-value-{i}".encode() * 5
+                maker[f"old{i}"] = f"old-value-{i}".encode() * 5
                 committed[f"old{i}"] = f"old-value-{i}".encode() * 5
+        # the handle whose session fails: the maker itself, or a read-only handle that has already run a session
+        if how == "ro":
+            col = Collection(path, UkvCollectionBackend)
+            with col.reading():
+                _ = col["old2"]
+        else:
+            col = maker
         be = col._backend
         restore = []
         raised = None
@@ -827,13 +1086,13 @@ def run_fail(spec, ctx):
 
                     def bad_end_read():
                         orig()
-                        raise Boom("end_read")
+                        raise Exc("end_read")
                     be.end_read = bad_end_read
                     restore.append(("end_read", orig))
                 with col.reading():
                     _ = col["old0"]
                     if step == "reader-body":
-                        raise Boom("reader body")
+                        raise Exc("reader body")
             else:
                 if step.startswith("backend-write"):
                     j = int(step[-1])
@@ -843,7 +1102,7 @@ def run_fail(spec, ctx):
                     def bad_write(k, v):
                         n[0] += 1
                         if n[0] == j:
-                            raise Boom(f"backend write #{j}")
+                            raise Exc(f"backend write #{j}")
                         return orig(k, v)
                     be._write = bad_write
                     restore.append(("_write", orig))
@@ -852,17 +1111,17 @@ def run_fail(spec, ctx):
 
                     def bad_end_write():
                         orig()
-                        raise Boom("end_write")
+                        raise Exc("end_write")
                     be.end_write = bad_end_write
                     restore.append(("end_write", orig))
                 with col.writing():
                     maybe.update({"new0": b"new-value-0", "new1": b"new-value-1" * 3, "new3": b"new-value-3"})
                     col["new0"] = b"new-value-0"
                     if step == "body":
-                        raise Boom("body")
+                        raise Exc("body")
                     col["new1"] = b"new-value-1" * 3
                     if step == "body-after-put":
-                        raise Boom("body after put")
+                        raise Exc("body after put")
                     if step == "encoder":
                         encoder_armed[0] = True
                         col["new2"] = b"never encoded"
@@ -871,16 +1130,23 @@ def run_fail(spec, ctx):
                     if step == "oversize-key":
                         col["K" * 256] = b"oversize"
                     col["new3"] = b"new-value-3"
-        except Exception as e:  # noqa
+        except BaseException as e:  # noqa  (the session is the only thing running here: whatever arrives was raised in it)
             raised = e
         finally:
             for name, orig in restore:
                 setattr(be, name, orig)
             encoder_armed[0] = False
         ctx.count("fail.cases")
-        ctx.case(case, dkey=case, nontrivial=True, sample={"step": step, "bufsize": bufsize, "raised": repr(raised)[:80]})
+        if exc != "Boom":
+            ctx.count("fail.cases-ended-by-something-that-is-not-an-Exception")
+        if how == "ro":
+            ctx.count("fail.cases-on-a-read-only-handle")
+        ctx.case(case, dkey=case, nontrivial=True,
+                 sample={"step": step, "bufsize": bufsize, "handle": how, "raised": repr(raised)[:80]})
         if raised is None:
-            ctx.violation(f"fail:{step}:exception-swallowed", case=case)
+            ctx.violation(f"fail:{tag}:exception-swallowed", case=case)
+        elif exc != "Boom" and not isinstance(raised, Exc):
+            ctx.violation(f"fail:{tag}:exception-replaced-by-another:{type(raised).__name__}", case=case, err=repr(raised)[:200])
         # the file must be closed: no descriptor of this process points at it any more
         open_fds = []
         for fd in os.listdir("/proc/self/fd"):
@@ -890,47 +1156,53 @@ def run_fail(spec, ctx):
             except OSError:
                 pass
         if open_fds:
-            ctx.violation(f"fail:{step}:file-left-open-after-failed-session", case=case, fds=len(open_fds))
+            ctx.violation(f"fail:{tag}:file-left-open-after-failed-session", case=case, fds=len(open_fds))
         # a fresh process must get the write lock (this process, the only possible holder, is still alive)
         code = PROBE % {"syspath": [p for p in sys.path if p], "path": str(path), "newkey": "probe"}
         try:
             p = subprocess.run([sys.executable, "-c", code], capture_output=True, text=True, timeout=60)
         except subprocess.TimeoutExpired:
-            ctx.violation(f"fail:{step}:fresh-process-blocked-forever", case=case)
+            ctx.violation(f"fail:{tag}:fresh-process-blocked-forever", case=case)
             continue
         try:
             out = json.loads(p.stdout.strip().splitlines()[-1])
         except Exception:  # noqa
-            ctx.violation(f"fail:{step}:fresh-process-session-failed", case=case, stderr=p.stderr[-300:])
+            ctx.violation(f"fail:{tag}:fresh-process-session-failed", case=case, stderr=p.stderr[-300:])
             continue
         if out["lock"] != "ok":
-            ctx.violation(f"fail:{step}:lock-not-released-after-failed-session", case=case, raised=repr(raised)[:100])
+            ctx.violation(f"fail:{tag}:lock-not-released-after-failed-session", case=case, raised=repr(raised)[:100])
             continue
         ctx.count("fail.fresh-process-acquired")
         recs = {k: bytes.fromhex(v) for k, v in out["records"].items()}
         for k, v in committed.items():
             if recs.get(k) != v:
-                ctx.violation(f"fail:{step}:earlier-record-lost-or-altered", case=case, key=k)
+                ctx.violation(f"fail:{tag}:earlier-record-lost-or-altered", case=case, key=k)
         for k, v in recs.items():
             if k in committed or k == "probe":
                 continue
             if k not in maybe or maybe[k] != v:
-                ctx.violation(f"fail:{step}:unexpected-record-after-failed-session", case=case, key=k[:20])
-        # the next session on the same handle and on another handle of this process succeeds
-        for name, c in (("same-handle", col), ("other-handle", other)):
+                ctx.violation(f"fail:{tag}:unexpected-record-after-failed-session", case=case, key=k[:20])
+        # the next session on the same handle and on another handle of this process succeeds and sees what the completed
+        # sessions (the earlier ones, the one of the fresh process, the ones just run here) stored
+        stored = dict(committed, probe=b"from-fresh-process")
+        for name, c in (("other-handle", other), ("same-handle", col)) if how == "ro" else (("same-handle", col), ("other-handle", other)):
             try:
-                with c.writing(timeout=10):
-                    c[f"after-{name}"] = b"x"
+                if c is not col or how != "ro":
+                    with c.writing(timeout=10):
+                        c[f"after-{name}"] = b"x"
+                    stored[f"after-{name}"] = b"x"
                 with c.reading(timeout=10):
                     ks = set(c.keys())
-                    if not set(committed) <= ks or f"after-{name}" not in ks:
-                        ctx.violation(f"fail:{step}:{name}-next-session-misses-records", case=case)
-                    for k in committed:
-                        if c[k] != committed[k]:
-                            ctx.violation(f"fail:{step}:{name}-earlier-record-altered", case=case, key=k)
+                    if not set(stored) <= ks:
+                        ctx.violation(f"fail:{tag}:{name}-next-session-misses-records", case=case,
+                                      missing=sorted(set(stored) - ks)[:4])
+                        continue
+                    for k in stored:
+                        if c[k] != stored[k]:
+                            ctx.violation(f"fail:{tag}:{name}-earlier-record-altered", case=case, key=k)
             except Exception as e:  # noqa
-                ctx.violation(f"fail:{step}:{name}-next-session-raises:{type(e).__name__}", case=case, err=repr(e)[:200])
+                ctx.violation(f"fail:{tag}:{name}-next-session-raises:{type(e).__name__}", case=case, err=repr(e)[:200])
         try:
             scan(path.read_bytes())
         except ScanError as e:
-            ctx.violation(f"fail:{step}:file-not-a-clean-record-sequence", case=case, err=str(e))
+            ctx.violation(f"fail:{tag}:file-not-a-clean-record-sequence", case=case, err=str(e))
